@@ -771,6 +771,18 @@ package zygo
 // are lazy; the function bound in the environment is the OLD definition at that time)
 //@ func (*Generator).LookupKnownFunction
 //@ C16 ensures definition-being-compiled-wins: old(sym != nil && gen.knownFunctions != nil && has(gen.knownFunctions, sym.number) && gen.knownFunctions[sym.number] != nil) ==> r0 == old(gen.knownFunctions[sym.number])
+// the table of definitions being compiled is handed down, never replaced: the generator that
+// compiles a cond arm, an and/or operand or a nested body finds the same definitions as the
+// one that compiles the function (a tail self-call in an arm needs the layout too)
+//@ stable C16 Generator | knownFunctions | NewGenerator, (*Generator).NewSubGenerator, buildSexpFun
+//@ func (*Generator).NewSubGenerator
+//@ C16 ensures shares-the-definitions-being-compiled: r0.knownFunctions == gen.knownFunctions
+//@ func (*Generator).GenerateCond
+//@ C16 assert default-arm-knows-the-definitions @before call Generate[0]: arg0.knownFunctions == old(gen.knownFunctions)
+//@ C16 assert arm-knows-the-definitions @before call Generate[2]: arg0.knownFunctions == old(gen.knownFunctions)
+//@ C16 loop 0 invariant gen.knownFunctions == old(gen.knownFunctions) && subgen != gen && subgen.knownFunctions == old(gen.knownFunctions)
+//@ func (*Generator).Reset
+//@ C16 preserves Generator.knownFunctions
 //@ func (*Generator).GenerateCallBySymbol
 //@ C16 assert layout-of-the-callee-itself @before call GenerateCallArgsForFunction[0]: arg0 == gen && same(arg2, args)
 //@ func (*Generator).GenerateCallArgsForFunction
